@@ -1,13 +1,19 @@
 import NmVerif.Index.Reduce
 import NmVerif.Lemmas.Reduce
+import NmVerif.Lemmas.ReduceTrace
 /-
   C08 — Reductions and accumulations fold exactly the addressed elements, in order.
 
   MODEL  `NmVerif.Reduce.reduce / reduceElem / reduceReads / accumulate …` (mirror of remove_dims, reduction_slices,
-         reduce_t, reduce_t<None>, accumulate_t, reducer_t)
+         reduce_t, reduce_t<None>, accumulate_t, reducer_t); `NmVerif.Reduce.diagonal / trace` (Index/ReduceTrace.lean:
+         view::trace = view::sum over the last axis of view::diagonal, the diagonal index functions being C16's mirrors)
   SPEC   `specShape`, `addressed`, `specReduceElem`, `accumAddressed`, `specAccumElem` (NumPy)
   Every theorem: any rank, any positive extents, any axis list NumPy accepts (negative entries, any order), keepdims
   either way, initial absent/present, element type and binary `op` ARBITRARY (no commutativity / associativity).
+  The `…_any_shape` / `…_pos_axes` theorems drop the positivity of the extents: shapes containing 0 are covered.  A fold
+  over no element (a reduced axis of extent 0, an empty diagonal) is the initial value, else the identity the functor
+  declares (`reduce_elem_eq_numpy_any_shape`, `reduce_elem_empty_fold`, `sum/prod_elem_eq_any_shape`,
+  `trace_eq_sum_diag_any_offset`) — the behaviour of the tree repaired by fixes/C08-trace-empty-diagonal.diff.
   Only property statements (+ non-vacuity examples) live here.
 -/
 namespace NmVerif.Props.C08
@@ -28,7 +34,7 @@ theorem reduce_shape_eq_numpy (op : α → α → α) (init : Option α) (a : Ar
     (hv : ValidAxes a.shape.length axis) :
     ∃ v, reduce op init a axis keep = some v ∧ v.shape = specShape a.shape (axisSet a.shape.length axis) keep := by
   refine ⟨⟨specShape a.shape (axisSet a.shape.length axis) keep, reduceElem op init a axis keep⟩, ?_, rfl⟩
-  simp [reduce, removeDims_eq_spec a.shape axis keep hv]
+  simp [reduce, reduceId, reduceElem, removeDims_eq_spec a.shape axis keep hv]
 
 /-! ### reduce: which elements, in which order -/
 
@@ -39,29 +45,91 @@ theorem reduce_reads_eq_addressed (s : Shape) (hs : Pos s) (axis : AxisArg) (kee
     reduceReads s axis keep j = some (addressed s (axisSet s.length axis) keep j) :=
   reduceReads_eq_addressed s hs axis keep hv j hj
 
+/-- … for EVERY shape, extents 0 included (then nothing is addressed when a reduced extent is 0, and there is no
+    result index `j` at all when a kept extent is 0) -/
+theorem reduce_reads_eq_addressed_any_shape (s : Shape) (axis : AxisArg) (keep : Bool)
+    (hv : ValidAxes s.length axis) (j : Idx) (hj : InShape j (specShape s (axisSet s.length axis) keep)) :
+    reduceReads s axis keep j = some (addressed s (axisSet s.length axis) keep j) :=
+  reduceReads_eq_addressed_all s axis keep hv j hj
+
+/-- element `j` of the reduce view = NumPy, for every shape whose REDUCED extents are positive (the kept extents may
+    be anything, 0 included): left fold `op(acc, x)` from the initial value (or the first element) over the addressed
+    elements in increasing C order.  `op` is arbitrary. -/
+theorem reduce_elem_eq_foldl_pos_axes (op : α → α → α) (init : Option α) (a : Arr α) (axis : AxisArg) (keep : Bool)
+    (hv : ValidAxes a.shape.length axis) (hR : PosAxes a.shape (axisSet a.shape.length axis)) (j : Idx)
+    (hj : InShape j (specShape a.shape (axisSet a.shape.length axis) keep)) :
+    reduceElem op init a axis keep j = specReduceElem op init a (axisSet a.shape.length axis) keep j :=
+  reduceElem_eq_spec_posAxes op init a axis keep hv hR j hj
+
 /-- element `j` of the reduce view = NumPy: left fold `op(acc, x)` from the initial value (or the first element) over
     the addressed elements in increasing C order.  `op` is arbitrary. -/
 theorem reduce_elem_eq_foldl (op : α → α → α) (init : Option α) (a : Arr α) (axis : AxisArg) (keep : Bool)
     (hs : Pos a.shape) (hv : ValidAxes a.shape.length axis) (j : Idx)
     (hj : InShape j (specShape a.shape (axisSet a.shape.length axis) keep)) :
-    reduceElem op init a axis keep j = specReduceElem op init a (axisSet a.shape.length axis) keep j := by
-  rw [reduceElem_eq_reads, reduceReads_eq_addressed a.shape hs axis keep hv j hj]
-  rfl
+    reduceElem op init a axis keep j = specReduceElem op init a (axisSet a.shape.length axis) keep j :=
+  reduce_elem_eq_foldl_pos_axes op init a axis keep hv (posAxes_of_pos hs _) j hj
+
+/-- on accepted arguments with positive reduced extents no element of the view is UB: the fold list is never empty -/
+theorem reduce_elem_defined_pos_axes (op : α → α → α) (init : Option α) (a : Arr α) (axis : AxisArg) (keep : Bool)
+    (hv : ValidAxes a.shape.length axis) (hR : PosAxes a.shape (axisSet a.shape.length axis)) (j : Idx)
+    (hj : InShape j (specShape a.shape (axisSet a.shape.length axis) keep)) :
+    ∃ v, reduceElem op init a axis keep j = some v := by
+  rw [reduce_elem_eq_foldl_pos_axes op init a axis keep hv hR j hj]
+  have hne := addressed_ne_nil_posAxes a.shape axis keep hv hR j hj
+  simp only [specReduceElem]
+  cases init with
+  | some i0 => exact ⟨_, rfl⟩
+  | none =>
+    cases h : addressed a.shape (axisSet a.shape.length axis) keep j with
+    | nil => exact absurd h hne
+    | cons x xs => exact ⟨_, rfl⟩
 
 /-- on accepted arguments no element of the view is UB: the fold list is never empty -/
 theorem reduce_elem_defined (op : α → α → α) (init : Option α) (a : Arr α) (axis : AxisArg) (keep : Bool)
     (hs : Pos a.shape) (hv : ValidAxes a.shape.length axis) (j : Idx)
     (hj : InShape j (specShape a.shape (axisSet a.shape.length axis) keep)) :
-    ∃ v, reduceElem op init a axis keep j = some v := by
-  rw [reduceElem_eq_reads]
-  obtain ⟨r, hr, hne⟩ := reduceReads_ne_nil a.shape hs axis keep hv j hj
-  rw [hr]
-  cases init with
-  | some i0 => exact ⟨_, rfl⟩
-  | none =>
-    cases r with
-    | nil => exact absurd rfl hne
-    | cons x xs => exact ⟨_, rfl⟩
+    ∃ v, reduceElem op init a axis keep j = some v :=
+  reduce_elem_defined_pos_axes op init a axis keep hv (posAxes_of_pos hs _) j hj
+
+/-- EVERY shape — extents 0 included, reduced or kept — and a functor with or without identity (`ident` = what
+    `op_type::identity()` returns, `none` if the functor declares none): element `j` of the view = NumPy's
+    `ufunc.reduce`: the left fold of the addressed elements in increasing C order; when there is none (a reduced axis of
+    extent 0) the initial value, else the identity, else NumPy's error / the code's assert (`none`). -/
+theorem reduce_elem_eq_numpy_any_shape (ident : Option α) (op : α → α → α) (init : Option α) (a : Arr α) (axis : AxisArg)
+    (keep : Bool) (hv : ValidAxes a.shape.length axis) (j : Idx)
+    (hj : InShape j (specShape a.shape (axisSet a.shape.length axis) keep)) :
+    reduceElemId ident op init a axis keep j = specReduceElemId ident op init a (axisSet a.shape.length axis) keep j :=
+  reduceElemId_eq_spec ident op init a axis keep hv j hj
+
+/-- a fold over no element (some reduced axis has extent 0): the initial value, else the identity of the functor
+    (repaired defect `reduce.empty-fold`: the code used to unwrap the Nothing that `view::flatten` gives for a zero-size
+    array) -/
+theorem reduce_elem_empty_fold (ident : Option α) (op : α → α → α) (init : Option α) (a : Arr α) (axis : AxisArg)
+    (keep : Bool) (hv : ValidAxes a.shape.length axis) (hR : ¬ PosAxes a.shape (axisSet a.shape.length axis)) (j : Idx)
+    (hj : InShape j (specShape a.shape (axisSet a.shape.length axis) keep)) :
+    reduceElemId ident op init a axis keep j = (match init with | some i => some i | none => ident) := by
+  have h0 := addressed_eq_nil_of_zero_axis a.shape (axisSet a.shape.length axis) keep j hR
+  rw [reduceElemId_eq_spec ident op init a axis keep hv j hj, specReduceElemId, h0]
+  rfl
+
+/-- a KEPT axis of extent 0: the result has the NumPy shape (`remove_dims_eq_numpy`, no positivity needed) and no
+    element at all — nothing is evaluated -/
+theorem reduce_zero_kept_extent_empty (s : Shape) (R : List Nat) (keep : Bool) (k : Nat) (hk : k ∉ R)
+    (h0 : s[k]? = some 0) : allIdx (specShape s R keep) = [] := by
+  apply allIdx_eq_nil_of_not_pos
+  intro hp
+  have hmem : (0, k) ∈ s.zipIdx := by
+    rw [List.mem_zipIdx_iff_getElem?]; simpa using h0
+  have : 0 ∈ specShape s R keep := by
+    unfold specShape
+    cases keep with
+    | true =>
+      simp only [if_true, List.mem_map]
+      exact ⟨(0, k), hmem, by simp [hk]⟩
+    | false =>
+      simp only [Bool.false_eq_true, if_false, List.mem_map, List.mem_filter]
+      exact ⟨(0, k), ⟨hmem, by simp [hk]⟩, rfl⟩
+  exact absurd (hp 0 this) (by omega)
 
 /-- the order in which the axes are listed (and how often the list is permuted) is irrelevant: same view.
     Holds for every axis list, valid or not. -/
@@ -80,11 +148,82 @@ theorem reduce_axes_order_irrelevant (op : α → α → α) (init : Option α) 
   · have hv' := hval.1 hv
     have hel : reduceElem op init a (some l) keep = reduceElem op init a (some l') keep := by
       funext d
-      simp only [reduceElem, reductionSlices, unwrapAxes, normalizeAxes_eq, if_pos hv, if_pos hv', Option.map_some, hin]
+      simp only [reduceElem, reduceElemId, reductionSlices, unwrapAxes, normalizeAxes_eq, if_pos hv, if_pos hv', Option.map_some, hin]
     simp only [reduce, removeDims, unwrapAxes, normalizeAxes_eq, if_pos hv, if_pos hv', Option.map_some, hin,
       List.length_map, hlen, hel]
   · have hv' : ¬ ∀ x ∈ l', ValidAxis a.shape.length x := fun hx => hv (hval.2 hx)
-    simp [reduce, removeDims, unwrapAxes, normalizeAxes_eq, hv, hv']
+    simp [reduce, reduceId, removeDims, unwrapAxes, normalizeAxes_eq, hv, hv']
+
+/-- AN AXIS NAMED SEVERAL TIMES (NumPy refuses the argument; the code does not look): with keepdims the view depends
+    only on the SET of normalised axes — repetitions, order and sign spelling are all irrelevant.  (Without keepdims
+    `remove_dims` sizes its result from the length of the list and writes past it: UB, `reduce … = none` in the model.) -/
+theorem reduce_keepdims_depends_on_axis_set (op : α → α → α) (init : Option α) (a : Arr α) (l l' : List Int)
+    (hl : ∀ x ∈ l, ValidAxis a.shape.length x) (hl' : ∀ x ∈ l', ValidAxis a.shape.length x)
+    (h : ∀ k, k ∈ l.map (normAxis a.shape.length) ↔ k ∈ l'.map (normAxis a.shape.length)) :
+    reduce op init a (some l) true = reduce op init a (some l') true := by
+  have hin : inAxis (some (l.map (normAxis a.shape.length))) = inAxis (some (l'.map (normAxis a.shape.length))) := by
+    funext k
+    rw [inAxis_some, inAxis_some]
+    congr 1
+    exact propext (h k)
+  have hel : reduceElem op init a (some l) true = reduceElem op init a (some l') true := by
+    funext d
+    simp only [reduceElem, reduceElemId, reductionSlices, unwrapAxes, normalizeAxes_eq, if_pos hl, if_pos hl', Option.map_some, hin]
+  simp only [reduce, removeDims, unwrapAxes, normalizeAxes_eq, if_pos hl, if_pos hl', Option.map_some, hin, hel, if_true]
+
+/-- … and then it is NumPy's result for the de-duplicated list -/
+theorem reduce_repeated_axes_keepdims (op : α → α → α) (init : Option α) (a : Arr α) (l : List Int)
+    (hs : Pos a.shape) (hl : ∀ x ∈ l, ValidAxis a.shape.length x) (j : Idx)
+    (hj : InShape j (specShape a.shape (l.map (normAxis a.shape.length)) true)) :
+    (reduce op init a (some l) true).map (fun v => (v.shape, v.get j)) =
+      some (specShape a.shape (l.map (normAxis a.shape.length)) true,
+            specReduceElem op init a (l.map (normAxis a.shape.length)) true j) := by
+  -- a duplicate-free list naming the same axes
+  let R := dedupNat (l.map (normAxis a.shape.length))
+  let l0 : List Int := R.map Int.ofNat
+  have hRlt : ∀ k ∈ R, k < a.shape.length := by
+    intro k hk
+    have : k ∈ l.map (normAxis a.shape.length) := (mem_dedupNat k _).1 hk
+    simp only [List.mem_map] at this
+    obtain ⟨x, hx, rfl⟩ := this
+    exact normAxis_lt (hl x hx)
+  have hl0 : ∀ x ∈ l0, ValidAxis a.shape.length x := by
+    intro x hx
+    simp only [l0, List.mem_map] at hx
+    obtain ⟨k, hk, rfl⟩ := hx
+    have := hRlt k hk
+    simp only [ValidAxis, Int.ofNat_eq_natCast]; omega
+  have hnorm : l0.map (normAxis a.shape.length) = R := by
+    simp only [l0, List.map_map]
+    conv => rhs; rw [← List.map_id R]
+    apply List.map_congr_left
+    intro k hk
+    exact normAxis_ofNat (hRlt k hk)
+  have hset : ∀ k, k ∈ l.map (normAxis a.shape.length) ↔ k ∈ l0.map (normAxis a.shape.length) := by
+    intro k; rw [hnorm]; exact (mem_dedupNat k _).symm
+  have hv0 : ValidAxes a.shape.length (some l0) := ⟨hl0, by rw [hnorm]; exact nodup_dedupNat _⟩
+  -- the spec only looks at membership
+  have hshape : specShape a.shape (l.map (normAxis a.shape.length)) true = specShape a.shape R true := by
+    simp only [specShape, if_true]
+    apply List.map_congr_left
+    intro q _
+    have := hset q.2; rw [hnorm] at this
+    simp only [this]
+  have hproj : ∀ i, proj (l.map (normAxis a.shape.length)) true i = proj R true i := by
+    intro i
+    simp only [proj, if_true]
+    apply List.map_congr_left
+    intro q _
+    have := hset q.2; rw [hnorm] at this
+    simp only [this]
+  have hspec : specReduceElem op init a (l.map (normAxis a.shape.length)) true j = specReduceElem op init a R true j := by
+    simp only [specReduceElem, addressed, hproj]
+  rw [reduce_keepdims_depends_on_axis_set op init a l l0 hl hl0 hset, hshape, hspec]
+  have hj0 : InShape j (specShape a.shape (axisSet a.shape.length (some l0)) true) := by
+    simp only [axisSet, hnorm]; rw [← hshape]; exact hj
+  have := reduce_elem_eq_foldl op init a (some l0) true hs hv0 j hj0
+  simp only [axisSet, hnorm] at this
+  simp only [reduce, removeDims_eq_spec a.shape (some l0) true hv0, Option.map_some, axisSet, hnorm, this]
 
 /-- every source index the view reads lies inside the source shape -/
 theorem reduce_inBounds (s : Shape) (hs : Pos s) (axis : AxisArg) (keep : Bool)
@@ -94,27 +233,35 @@ theorem reduce_inBounds (s : Shape) (hs : Pos s) (axis : AxisArg) (keep : Bool)
   intro i hi
   exact mem_allIdx_inShape (List.mem_filter.1 hi).1
 
+/-- … for every shape, extents 0 included -/
+theorem reduce_inBounds_any_shape (s : Shape) (axis : AxisArg) (keep : Bool)
+    (hv : ValidAxes s.length axis) (j : Idx) (hj : InShape j (specShape s (axisSet s.length axis) keep)) :
+    ∃ r, reduceReads s axis keep j = some r ∧ ∀ i ∈ r, InShape i s := by
+  refine ⟨_, reduceReads_eq_addressed_all s axis keep hv j hj, ?_⟩
+  intro i hi
+  exact mem_allIdx_inShape (List.mem_filter.1 hi).1
+
 /-! ### named reductions as instances -/
 
 /-- `view::sum` = `reduce(add_t)`: NumPy `sum` element -/
-theorem sum_elem_eq [Add α] (init : Option α) (a : Arr α) (axis : AxisArg) (keep : Bool)
+theorem sum_elem_eq [Add α] [OfNat α 0] (init : Option α) (a : Arr α) (axis : AxisArg) (keep : Bool)
     (hs : Pos a.shape) (hv : ValidAxes a.shape.length axis) (j : Idx)
     (hj : InShape j (specShape a.shape (axisSet a.shape.length axis) keep)) :
     (sum init a axis keep).map (fun v => (v.shape, v.get j)) =
       some (specShape a.shape (axisSet a.shape.length axis) keep,
             foldFirst (· + ·) init ((addressed a.shape (axisSet a.shape.length axis) keep j).map a.get)) := by
-  simp only [sum, reduce, removeDims_eq_spec a.shape axis keep hv, Option.map_some]
-  rw [reduce_elem_eq_foldl _ init a axis keep hs hv j hj]; rfl
+  simp only [sum, reduceId, removeDims_eq_spec a.shape axis keep hv, Option.map_some]
+  rw [reduceElemId_eq_spec_posAxes _ _ init a axis keep hv (posAxes_of_pos hs _) j hj]; rfl
 
 /-- `view::prod` = `reduce(multiply_t)` -/
-theorem prod_elem_eq [Mul α] (init : Option α) (a : Arr α) (axis : AxisArg) (keep : Bool)
+theorem prod_elem_eq [Mul α] [OfNat α 1] (init : Option α) (a : Arr α) (axis : AxisArg) (keep : Bool)
     (hs : Pos a.shape) (hv : ValidAxes a.shape.length axis) (j : Idx)
     (hj : InShape j (specShape a.shape (axisSet a.shape.length axis) keep)) :
     (prodReduce init a axis keep).map (fun v => (v.shape, v.get j)) =
       some (specShape a.shape (axisSet a.shape.length axis) keep,
             foldFirst (· * ·) init ((addressed a.shape (axisSet a.shape.length axis) keep j).map a.get)) := by
-  simp only [prodReduce, reduce, removeDims_eq_spec a.shape axis keep hv, Option.map_some]
-  rw [reduce_elem_eq_foldl _ init a axis keep hs hv j hj]; rfl
+  simp only [prodReduce, reduceId, removeDims_eq_spec a.shape axis keep hv, Option.map_some]
+  rw [reduceElemId_eq_spec_posAxes _ _ init a axis keep hv (posAxes_of_pos hs _) j hj]; rfl
 
 /-- `view::amax` = `reduce(maximum_t)` with `maximum(t,u) = t > u ? t : u` -/
 theorem amax_elem_eq [LT α] [DecidableRel (α := α) (· < ·)] (init : Option α) (a : Arr α) (axis : AxisArg) (keep : Bool)
@@ -151,7 +298,7 @@ theorem mean_eq_sum_div_count (add : α → α → α) (divn : α → Nat → α
   | none =>
     refine ⟨⟨specShape a.shape (axisSet a.shape.length none) keep,
       fun j => (reduceElem add none a none keep j).map (fun x => divn x (prod a.shape))⟩, ?_, rfl, ?_⟩
-    · simp [mean, unwrapAxes, meanDivisor, reduce, removeDims_eq_spec a.shape none keep hv]
+    · simp [mean, unwrapAxes, meanDivisor, reduce, reduceId, reduceElem, removeDims_eq_spec a.shape none keep hv]
     · intro j hj
       have hr := reduceReads_eq_addressed a.shape hs none keep hv j hj
       have hlen : (addressed a.shape (axisSet a.shape.length none) keep j).length = prod a.shape := by
@@ -170,7 +317,7 @@ theorem mean_eq_sum_div_count (add : α → α → α) (divn : α → Nat → α
       fun j => (reduceElem add none a (some ((l.map (normAxis a.shape.length)).map Int.ofNat)) keep j).map
         (fun x => divn x (prodSel (fun k => decide (k ∈ l.map (normAxis a.shape.length))) 0 a.shape))⟩, ?_, rfl, ?_⟩
     · simp only [mean, unwrapAxes, normalizeAxes_eq, if_pos hval, Option.map_some,
-        meanDivisor_eq_prodSel a.shape _ hv.2 hlt, reduce, removeDims_eq_spec a.shape _ keep hv', hset]
+        meanDivisor_eq_prodSel a.shape _ hv.2 hlt, reduce, reduceId, reduceElem, removeDims_eq_spec a.shape _ keep hv', hset]
     · intro j hj
       have hj' : InShape j (specShape a.shape (axisSet a.shape.length
           (some ((l.map (normAxis a.shape.length)).map Int.ofNat))) keep) := by rw [hset]; exact hj
@@ -190,7 +337,7 @@ theorem vector_norm_eq (add : α → α → α) (pre post : α → α) (a : Arr 
   refine ⟨⟨specShape a.shape (axisSet a.shape.length axis) keep,
     fun j => (reduceElem add none (a.map pre) axis keep j).map post⟩, ?_, rfl, ?_⟩
   · have := removeDims_eq_spec a.shape axis keep hv
-    simp [vectorNorm, reduce, Arr.map, this]
+    simp [vectorNorm, reduce, reduceId, reduceElem, Arr.map, this]
   · intro j hj
     have h := reduce_elem_eq_foldl add none (a.map pre) axis keep hs hv j hj
     show (reduceElem add none (a.map pre) axis keep j).map post = _
@@ -222,6 +369,134 @@ theorem stddev_eq_sqrt_var (add sub : α → α → α) (sqabs sqrt : α → α)
   show (v.get j).map sqrt = _
   rw [h3 j hj]
 
+/-! ### the compositions on shapes containing 0: only the reduced extents need be positive -/
+
+/-- `view::sum` / `view::prod` on every shape whose reduced extents are positive -/
+theorem sum_elem_eq_pos_axes [Add α] [OfNat α 0] (init : Option α) (a : Arr α) (axis : AxisArg) (keep : Bool)
+    (hv : ValidAxes a.shape.length axis) (hR : PosAxes a.shape (axisSet a.shape.length axis)) (j : Idx)
+    (hj : InShape j (specShape a.shape (axisSet a.shape.length axis) keep)) :
+    (sum init a axis keep).map (fun v => (v.shape, v.get j)) =
+      some (specShape a.shape (axisSet a.shape.length axis) keep,
+            foldFirst (· + ·) init ((addressed a.shape (axisSet a.shape.length axis) keep j).map a.get)) := by
+  simp only [sum, reduceId, removeDims_eq_spec a.shape axis keep hv, Option.map_some]
+  rw [reduceElemId_eq_spec_posAxes _ _ init a axis keep hv hR j hj]; rfl
+
+theorem prod_elem_eq_pos_axes [Mul α] [OfNat α 1] (init : Option α) (a : Arr α) (axis : AxisArg) (keep : Bool)
+    (hv : ValidAxes a.shape.length axis) (hR : PosAxes a.shape (axisSet a.shape.length axis)) (j : Idx)
+    (hj : InShape j (specShape a.shape (axisSet a.shape.length axis) keep)) :
+    (prodReduce init a axis keep).map (fun v => (v.shape, v.get j)) =
+      some (specShape a.shape (axisSet a.shape.length axis) keep,
+            foldFirst (· * ·) init ((addressed a.shape (axisSet a.shape.length axis) keep j).map a.get)) := by
+  simp only [prodReduce, reduceId, removeDims_eq_spec a.shape axis keep hv, Option.map_some]
+  rw [reduceElemId_eq_spec_posAxes _ _ init a axis keep hv hR j hj]; rfl
+
+/-- `view::sum` on EVERY shape: over no element it is the initial value, else 0 (`np.sum`) -/
+theorem sum_elem_eq_any_shape [Add α] [OfNat α 0] (init : Option α) (a : Arr α) (axis : AxisArg) (keep : Bool)
+    (hv : ValidAxes a.shape.length axis) (j : Idx)
+    (hj : InShape j (specShape a.shape (axisSet a.shape.length axis) keep)) :
+    (sum init a axis keep).map (fun v => (v.shape, v.get j)) =
+      some (specShape a.shape (axisSet a.shape.length axis) keep,
+            foldNumpy (some 0) (· + ·) init ((addressed a.shape (axisSet a.shape.length axis) keep j).map a.get)) := by
+  simp only [sum, reduceId, removeDims_eq_spec a.shape axis keep hv, Option.map_some]
+  rw [reduceElemId_eq_spec _ _ init a axis keep hv j hj]; rfl
+
+/-- `view::prod` on EVERY shape: over no element it is the initial value, else 1 (`np.prod`) -/
+theorem prod_elem_eq_any_shape [Mul α] [OfNat α 1] (init : Option α) (a : Arr α) (axis : AxisArg) (keep : Bool)
+    (hv : ValidAxes a.shape.length axis) (j : Idx)
+    (hj : InShape j (specShape a.shape (axisSet a.shape.length axis) keep)) :
+    (prodReduce init a axis keep).map (fun v => (v.shape, v.get j)) =
+      some (specShape a.shape (axisSet a.shape.length axis) keep,
+            foldNumpy (some 1) (· * ·) init ((addressed a.shape (axisSet a.shape.length axis) keep j).map a.get)) := by
+  simp only [prodReduce, reduceId, removeDims_eq_spec a.shape axis keep hv, Option.map_some]
+  rw [reduceElemId_eq_spec _ _ init a axis keep hv j hj]; rfl
+
+/-- `mean_eq_sum_div_count` with the positivity asked of the reduced extents only -/
+theorem mean_eq_sum_div_count_pos_axes (add : α → α → α) (divn : α → Nat → α) (a : Arr α) (axis : AxisArg) (keep : Bool)
+    (hv : ValidAxes a.shape.length axis) (hR : PosAxes a.shape (axisSet a.shape.length axis)) :
+    ∃ v, mean add divn a axis keep = some v ∧ v.shape = specShape a.shape (axisSet a.shape.length axis) keep ∧
+      ∀ j, InShape j v.shape →
+        v.get j = (specReduceElem add none a (axisSet a.shape.length axis) keep j).map
+                    (fun x => divn x (addressed a.shape (axisSet a.shape.length axis) keep j).length) :=
+  mean_spec_posAxes add divn a axis keep hv hR
+
+/-- `var_eq_mean_sq_dev` with the positivity asked of the reduced extents only -/
+theorem var_eq_mean_sq_dev_pos_axes (add sub : α → α → α) (sqabs : α → α) (divn : α → Nat → α) (a : Arr α)
+    (axis : AxisArg) (ddof : Nat) (keep : Bool) (hv : ValidAxes a.shape.length axis)
+    (hR : PosAxes a.shape (axisSet a.shape.length axis)) :
+    ∃ v, var add sub sqabs divn a axis ddof keep = some v ∧
+      v.shape = specShape a.shape (axisSet a.shape.length axis) keep ∧
+      ∀ j, InShape j v.shape →
+        v.get j = specVarElem add sub sqabs divn a (axisSet a.shape.length axis) keep ddof j :=
+  var_spec_posAxes add sub sqabs divn a axis ddof keep hv hR
+
+/-- `stddev_eq_sqrt_var` with the positivity asked of the reduced extents only -/
+theorem stddev_eq_sqrt_var_pos_axes (add sub : α → α → α) (sqabs sqrt : α → α) (divn : α → Nat → α) (a : Arr α)
+    (axis : AxisArg) (ddof : Nat) (keep : Bool) (hv : ValidAxes a.shape.length axis)
+    (hR : PosAxes a.shape (axisSet a.shape.length axis)) :
+    ∃ v, stddev add sub sqabs sqrt divn a axis ddof keep = some v ∧
+      v.shape = specShape a.shape (axisSet a.shape.length axis) keep ∧
+      ∀ j, InShape j v.shape →
+        v.get j = (specVarElem add sub sqabs divn a (axisSet a.shape.length axis) keep ddof j).map sqrt := by
+  obtain ⟨v, h1, h2, h3⟩ := var_spec_posAxes add sub sqabs divn a axis ddof keep hv hR
+  refine ⟨⟨v.shape, fun j => (v.get j).map sqrt⟩, by simp [stddev, h1], h2, ?_⟩
+  intro j hj
+  show (v.get j).map sqrt = _
+  rw [h3 j hj]
+
+/-- `vector_norm_eq` with the positivity asked of the reduced extents only -/
+theorem vector_norm_eq_pos_axes (add : α → α → α) (pre post : α → α) (a : Arr α) (axis : AxisArg) (keep : Bool)
+    (hv : ValidAxes a.shape.length axis) (hR : PosAxes a.shape (axisSet a.shape.length axis)) :
+    ∃ v, vectorNorm add pre post a axis keep = some v ∧
+      v.shape = specShape a.shape (axisSet a.shape.length axis) keep ∧
+      ∀ j, InShape j v.shape →
+        v.get j = (foldFirst add none ((addressed a.shape (axisSet a.shape.length axis) keep j).map
+                    (fun i => pre (a.get i)))).map post := by
+  refine ⟨⟨specShape a.shape (axisSet a.shape.length axis) keep,
+    fun j => (reduceElem add none (a.map pre) axis keep j).map post⟩, ?_, rfl, ?_⟩
+  · have := removeDims_eq_spec a.shape axis keep hv
+    simp [vectorNorm, reduce, reduceId, reduceElem, Arr.map, this]
+  · intro j hj
+    have h := reduce_elem_eq_foldl_pos_axes add none (a.map pre) axis keep hv hR j hj
+    show (reduceElem add none (a.map pre) axis keep j).map post = _
+    rw [h]
+    simp [specReduceElem, Arr.map, List.map_map, Function.comp_def]
+
+/-! ### trace -/
+
+/-- `view::trace(a, offset, axis1, axis2)` = `sum(diagonal(a, offset, axis1, axis2), -1)` agrees with `np.trace` for
+    every rank ≥ 2, every pair of distinct accepted axes (negative ones counted from the end, either order), every
+    offset whose diagonal is non-empty (`max(-offset,0) < n1`, `max(offset,0) < n2`; the other extents arbitrary): the
+    result has the other extents in order, and element `j` is the left fold, in increasing `i`, of exactly the
+    diagonal elements `a[j; axis1 ↦ i + max(-offset,0), axis2 ↦ i + max(offset,0)]`, `i < min(n1 - max(-offset,0),
+    n2 - max(offset,0))` (`Linalg.specTrace`, the index list C16 uses) — never empty, every read inside the source.
+    `add` is arbitrary. -/
+theorem trace_eq_sum_diag (add : α → α → α) (zero : Option α) (a : Arr α) (off axis1 axis2 : Int) (n1 n2 : Nat)
+    (h1 : ValidAxis a.shape.length axis1) (h2 : ValidAxis a.shape.length axis2)
+    (h12 : normAxis a.shape.length axis1 ≠ normAxis a.shape.length axis2)
+    (hn1 : a.shape[normAxis a.shape.length axis1]? = some n1)
+    (hn2 : a.shape[normAxis a.shape.length axis2]? = some n2)
+    (hlo : (-off).toNat < n1) (hhi : off.toNat < n2) :
+    ∃ v sp, trace add zero a off axis1 axis2 = some v ∧
+      Linalg.specTrace a.shape off (normAxis a.shape.length axis1) (normAxis a.shape.length axis2) = some sp ∧
+      v.shape = sp.shape ∧
+      ∀ j, InShape j sp.shape →
+        v.get j = foldFirst add none ((sp.get j).map a.get) ∧ sp.get j ≠ [] ∧ ∀ i ∈ sp.get j, InShape i a.shape :=
+  trace_spec add zero a off axis1 axis2 n1 n2 h1 h2 h12 hn1 hn2 hlo hhi
+
+/-- … and for EVERY offset: an empty diagonal (offset beyond the extent, an extent 0) gives `zero`, the identity of the
+    sum (`np.trace` = 0; repaired defect `trace.empty-diagonal`) -/
+theorem trace_eq_sum_diag_any_offset (add : α → α → α) (zero : Option α) (a : Arr α) (off axis1 axis2 : Int) (n1 n2 : Nat)
+    (h1 : ValidAxis a.shape.length axis1) (h2 : ValidAxis a.shape.length axis2)
+    (h12 : normAxis a.shape.length axis1 ≠ normAxis a.shape.length axis2)
+    (hn1 : a.shape[normAxis a.shape.length axis1]? = some n1)
+    (hn2 : a.shape[normAxis a.shape.length axis2]? = some n2) :
+    ∃ v sp, trace add zero a off axis1 axis2 = some v ∧
+      Linalg.specTrace a.shape off (normAxis a.shape.length axis1) (normAxis a.shape.length axis2) = some sp ∧
+      v.shape = sp.shape ∧
+      ∀ j, InShape j sp.shape →
+        v.get j = foldNumpy zero add none ((sp.get j).map a.get) ∧ ∀ i ∈ sp.get j, InShape i a.shape :=
+  trace_spec_all add zero a off axis1 axis2 n1 n2 h1 h2 h12 hn1 hn2
+
 /-! ### accumulate -/
 
 /-- accumulate keeps the source shape -/
@@ -239,8 +514,13 @@ theorem accumulate_eq_scan (op : α → α → α) (a : Arr α) (axis : Int) (hv
     (hd : InShape d a.shape) :
     accumulateElem op a axis d = specAccumElem op a (normAxis a.shape.length axis) d := by
   rw [accumulateElem_eq_reads, accumulateReads_eq a.shape axis hv d hd.length_eq]
-  simp only [specAccumElem]
-  cases accumAddressed (normAxis a.shape.length axis) d <;> rfl
+  simp only [specAccumElem, accumAddressed]
+  cases d[normAxis a.shape.length axis]? with
+  | none => rfl
+  | some m =>
+    simp only [Option.bind_some]
+    rw [foldNumpy_of_ne_nil]
+    simp [List.range_succ]
 
 /-- … which is the *running* fold along the axis: first element copied, each next one `op(previous result, source)` -/
 theorem accumulate_running (op : α → α → α) (a : Arr α) (ax : Nat) (d : Idx) (hax : ax < d.length) :
@@ -298,6 +578,35 @@ example : ValidAxis 2 (-1) ∧ normAxis 2 (-1) = 1 ∧ InShape [1,2] [2,3] := by
 example : accumulateElem (fun x y => 31 * x + y) (Arr.iota [2,3]) (-1) [1,2] = some ((3 * 31 + 4) * 31 + 5) := by decide
 example : accumulateReads [2,3] (-2) [1,2] = some [[0,2],[1,2]] := by decide
 example : ¬ ValidAxes 2 (some [0, -2]) ∧ ¬ ValidAxes 2 (some [2]) := by decide
+-- trace: hypotheses satisfiable on a rank-3 array with a negative axis and a negative offset; the statement computes
+example : ValidAxis 3 (-1) ∧ ValidAxis 3 0 ∧ normAxis 3 (-1) ≠ normAxis 3 0 ∧ [2,3,4][normAxis 3 (-1)]? = some 4 ∧
+    [2,3,4][normAxis 3 0]? = some 2 ∧ (-(-2 : Int)).toNat < 4 ∧ (-2 : Int).toNat < 2 := by decide
+example : (trace (· + ·) (some 0) (Arr.iota [2,3,4]) (-2) (-1) 0).map (fun v => (v.shape, v.get [1])) = some ([3], some (6 + 19)) := by
+  decide
+example : (Linalg.specTrace [2,3,4] (-2) 2 0).map (fun sp => (sp.shape, sp.get [1])) = some ([3], [[0,1,2],[1,1,3]]) := by
+  decide
+example : (trace (· + ·) (some 0) (Arr.iota [3,4]) 1 0 1).map (fun v => (v.shape, v.get [])) = some ([], some (1 + 6 + 11)) := by decide
+-- the repaired defects, as regression guards: an empty diagonal sums to 0, a fold over no element is the initial value / the identity
+example : (trace (· + ·) (some 0) (Arr.iota [3,4]) 4 0 1).map (fun v => (v.shape, v.get [])) = some ([], some 0) := by decide
+example : reduceElemId (some 0) (· + ·) (some 5) (⟨[2,0], fun _ => (0 : Int)⟩ : Arr Int) (some [1]) false [0] = some 5 := by decide
+example : (sum none (⟨[2,0], fun _ => (7 : Int)⟩ : Arr Int) (some [1]) false).map (fun v => (v.shape, v.get [1])) = some ([2], some 0) := by decide
+example : (prodReduce none (⟨[0], fun _ => (7 : Int)⟩ : Arr Int) none false).map (fun v => (v.shape, v.get [])) = some ([], some 1) := by decide
+-- zero extents: reduced extents positive, a kept extent 0 (no result element); a reduced extent 0 (nothing addressed)
+example : ValidAxes 3 (some [-1]) ∧ PosAxes [2,0,3] (axisSet 3 (some [-1])) ∧ ¬ Pos [2,0,3] ∧
+    specShape [2,0,3] (axisSet 3 (some [-1])) false = [2,0] ∧ allIdx [2,0] = [] := by decide
+example : ValidAxes 3 (some [1]) ∧ ¬ PosAxes [2,0,3] (axisSet 3 (some [1])) ∧
+    InShape [1,2] (specShape [2,0,3] (axisSet 3 (some [1])) false) ∧ addressed [2,0,3] (axisSet 3 (some [1])) false [1,2] = [] := by
+  decide
+example : PosAxes [0,3] (axisSet 2 (some [1])) ∧ PosAxes [2,3] (axisSet 2 none) ∧ ¬ PosAxes [2,0] (axisSet 2 none) := by decide
+example : reduceElem (fun x y => 31 * x + y) (some 7) (⟨[2,0,3], fun _ => 1⟩ : Arr Nat) (some [1]) false [1,2] = some 7 ∧
+    reduceElem (fun x y => 31 * x + y) none (⟨[2,0,3], fun _ => 1⟩ : Arr Nat) (some [1]) false [1,2] = none := by decide
+example : (1 : Nat) ∉ [2] ∧ [4,0,3][1]? = some 0 ∧ specShape [4,0,3] [2] true = [4,0,1] := by decide
+-- repeated axes under keepdims: hypotheses satisfiable with a genuine repetition in two spellings; the statement computes
+example : (∀ x ∈ [1, -2, 1], ValidAxis 3 x) ∧ [1, -2, 1].map (normAxis 3) = [1, 1, 1] ∧
+    InShape [1,0,1] (specShape [2,3,2] ([1, -2, 1].map (normAxis 3)) true) := by decide
+example : (reduce (fun x y => 31 * x + y) none (Arr.iota [2,3,2]) (some [1, -2, 1]) true).map (fun v => (v.shape, v.get [1,0,1]))
+    = some ([2,1,2], some ((7 * 31 + 9) * 31 + 11)) := by decide
+example : reduce (fun x y => 31 * x + y) none (Arr.iota [2,3,2]) (some [1, 1]) false = none := by decide
 -- mean / var of the rows of [[1,2,3],[4,5,6]] over exact "rationals as (numerator, denominator)" would need a field;
 -- over Nat with truncating division the statements still compute: mean = [2,5], var (ddof 0) = [(1+0+1)/3, …] = [0,0]
 example : (mean (· + ·) (fun x n => x / n) (Arr.iota [2,3]) (some [-1]) false).map (fun v => (v.shape, v.get [1]))
